@@ -206,7 +206,9 @@ def find_item(src: str, m: str, spec: str, file: str) -> Item:
             # header from the 'impl' keyword (skip attrs/docs)
             ik = re.search(r"\b(unsafe\s+)?impl\b", m[hs:o])
             hdr = src[hs + ik.start():o].strip()
-        return Item(spec, "method" if owner else "fn", name, text, file, _line_of(src, s0), hdr, owner)
+        # several items of the same name (trait impls for different type arguments): the k-th (k >= 2) carries `#k` in its name
+        iname = name + ("#%d" % sel if sel and sel >= 2 else "")
+        return Item(spec, "method" if owner else "fn", iname, text, file, _line_of(src, s0), hdr, owner)
     elif kind in ("struct", "enum", "trait", "union"):
         cands = []
         for k in re.finditer(r"\b%s\s+%s\b" % (kind, re.escape(name)), m):
